@@ -3,6 +3,7 @@ package verifsim
 import (
 	"fmt"
 	"hash/fnv"
+	"os"
 	"runtime"
 	"time"
 
@@ -278,8 +279,14 @@ func (s *Sim) record(kind int, tok uint64) {
 	harnessLock()
 	s.hash += mix64(h)
 	s.nEvents++
+	if debugTrace {
+		debugLog = append(debugLog, fmt.Sprintf("%d ev %d %d", s.Now(), kind, tok))
+	}
 	harnessUnlock()
 }
+
+var debugTrace = os.Getenv("VERIF_DEBUG_TRACE") != ""
+var debugLog []string
 
 // MixHash folds harness-level observations into the determinism hash.
 //
@@ -292,12 +299,18 @@ func (s *Sim) MixHash(b []byte) {
 	}
 	harnessLock()
 	s.hash += mix64(h)
+	if debugTrace {
+		debugLog = append(debugLog, fmt.Sprintf("%d mix %s", s.Now(), string(b)))
+	}
 	harnessUnlock()
 }
 
 // TraceHash is the determinism fingerprint of the run so far.
 func (s *Sim) TraceHash() string {
 	h := fnv.New64a()
+	if debugTrace {
+		fmt.Fprintf(os.Stderr, "TRACEHASH %d/%d/%d/%d ev=%d\n", s.hash, s.Yields, s.nodeCalls, s.slots, s.nEvents)
+	}
 	fmt.Fprintf(h, "%d/%d/%d/%d", s.hash, s.Yields, s.nodeCalls, s.slots)
 	return fmt.Sprintf("%016x", h.Sum64())
 }
@@ -402,7 +415,6 @@ func hookToken(kind int) uint64 {
 	}
 	switch kind {
 	case verifhook.TimerSpawn:
-		s.firstSlot[tok] = s.reserve(500 + int64(s.costRng.Intn(4000)))
 		s.tokenKind[tok] = 1
 		s.tokenGen[tok] = int32(s.SearchGen)
 		s.TimersLive++
@@ -414,6 +426,10 @@ func hookToken(kind int) uint64 {
 			t := s.reserve(d)
 			s.sleepUntil(t)
 		}
+		// the child's first slot is reserved last: it must lie in the future
+		// when the child starts, so that parent and child never share an instant
+		// beyond the spawn itself
+		s.firstSlot[tok] = s.reserve(500 + int64(s.costRng.Intn(4000)))
 	case verifhook.BookSpawn:
 		s.BookWorkers++
 		s.firstSlot[tok] = s.reserve(s.bookFirstDelay(tok))
